@@ -172,7 +172,7 @@ BOUNDS = {
              'compound/whole-row; ragged rows (missing key cells); buffersize in {None,1,..,4}; reverse; cache; '
              '2 passes; cross-type representative keys (12 values over every type rung) with n<=3/2; compound key given in non-header '
              'order; mergesort of 2 tables (<=2 rows each) and 3 tables (<=1,2,1 rows), of tables with different field orders and short rows',
-    'thorough': 'as quick with n in [0,4] for sort (buffersize in {None,1..5}) and mergesort 2x(<=3 rows), '
+    'thorough': 'as quick with n in [0,4] for sort on int / None|int keys (buffersize in {None,1..5}) and mergesort 2x(<=3 rows), '
                 '3 tables (<=2 rows each)',
 }
 OUTSIDE = ('tables with more rows than the bound; strings longer than 1 char in keys; floats/Decimal/dates in keys '
@@ -205,6 +205,8 @@ def jobs(tier):
                             if tier == 'thorough':
                                 budget = 900
                             Nj = N if dom != 'X' else (3 if bs is None else 2)
+                            if tier == 'thorough' and not (keyform in ('single', 'none') and dom in ('I', 'O') and not ragged):
+                                Nj = min(Nj, 3)       # n<=4 for int / None|int keys; the other domains stay at n<=3
                             if keyform.startswith('compound'):
                                 Nj = N - 1        # two symbolic cells per row
                             out.append(dict(
